@@ -168,6 +168,8 @@ type Built struct {
 	Desc   *SchemaDesc
 	Schema *graphql.Schema
 	Named  map[string]graphql.NamedType
+	// Def is the definition the schema was built from (see BuildViaClone).
+	Def *graphql.SchemaDefinition
 }
 
 // WorldKey is the key the generic resolver looks up: the field name, or "<name>#<k>" when the
@@ -339,5 +341,6 @@ func Build(desc *SchemaDesc) (*Built, error) {
 		return nil, err
 	}
 	b.Schema = s
+	b.Def = def
 	return b, nil
 }
